@@ -385,6 +385,18 @@ coap_session_t *coap_session_reference_lkd(coap_session_t *session);
 void coap_session_release_lkd(coap_session_t *session);
 
 /**
+ * Creates a new token for use.
+ *
+ * Note: This function must be called in the locked state.
+ *
+ * @param session The current coap_session_t object.
+ * @param length  Updated with the length of the new token.
+ * @param token   Updated with the new token data (must be 8 bytes long).
+ */
+void coap_session_new_token_lkd(coap_session_t *session, size_t *length,
+                                uint8_t *token);
+
+/**
  * Send a pdu according to the session's protocol. This function returns
  * the number of bytes that have been transmitted, or a value less than zero
  * on error.
